@@ -47,32 +47,42 @@ theorem SegAt.nil (code : List Instr) (b : Nat) : SegAt code b [] := by
 
 /-! ### Running -/
 
-/-- the local machine gets from `(pc, stk)` to `(pc', stk')` (heap unchanged) -/
-def Exec (fn : Fn) (upv : List Val) (h : Heap) (pc : Nat) (stk : List Val) (pc' : Nat)
-    (stk' : List Val) : Prop :=
-  ∃ n, ∀ m, runLocal fn upv (n + m) pc stk h = runLocal fn upv m pc' stk' h
+/-- the local machine gets from `(pc, stk)` to `(pc', stk')` in some number of turns of the
+    interpreter loop, none of which touches the heap -/
+inductive Exec (fn : Fn) (upv : List Val) (h : Heap) : Nat → List Val → Nat → List Val → Prop where
+  | refl (pc : Nat) (stk : List Val) : Exec fn upv h pc stk pc stk
+  | cons {pc stk pc₁ stk₁ pc₂ stk₂} :
+      stepLocal fn upv pc stk h = .next pc₁ stk₁ h → Exec fn upv h pc₁ stk₁ pc₂ stk₂ →
+      Exec fn upv h pc stk pc₂ stk₂
 
-/-- the local machine fails with `e` -/
+/-- the local machine runs (heap untouched) into a turn that fails with `e` -/
 def ExecErr (fn : Fn) (upv : List Val) (h : Heap) (pc : Nat) (stk : List Val) (e : Err) : Prop :=
-  ∃ n, ∀ m, runLocal fn upv (n + m) pc stk h = .err e
-
-theorem Exec.refl (fn upv h pc stk) : Exec fn upv h pc stk pc stk := ⟨0, by simp⟩
+  ∃ pc' stk', Exec fn upv h pc stk pc' stk' ∧ stepLocal fn upv pc' stk' h = .err e
 
 theorem Exec.trans {fn upv h pc₁ s₁ pc₂ s₂ pc₃ s₃}
     (a : Exec fn upv h pc₁ s₁ pc₂ s₂) (b : Exec fn upv h pc₂ s₂ pc₃ s₃) :
     Exec fn upv h pc₁ s₁ pc₃ s₃ := by
-  obtain ⟨n, hn⟩ := a
-  obtain ⟨k, hk⟩ := b
-  refine ⟨n + k, fun m => ?_⟩
-  rw [Nat.add_assoc, hn, hk]
+  induction a with
+  | refl => exact b
+  | cons hs _ ih => exact .cons hs (ih b)
 
 theorem Exec.thenErr {fn upv h pc₁ s₁ pc₂ s₂ e}
     (a : Exec fn upv h pc₁ s₁ pc₂ s₂) (b : ExecErr fn upv h pc₂ s₂ e) :
     ExecErr fn upv h pc₁ s₁ e := by
-  obtain ⟨n, hn⟩ := a
-  obtain ⟨k, hk⟩ := b
-  refine ⟨n + k, fun m => ?_⟩
-  rw [Nat.add_assoc, hn, hk]
+  obtain ⟨pc', stk', hb, he⟩ := b
+  exact ⟨pc', stk', a.trans hb, he⟩
+
+/-- `Exec` is what `runLocal` computes -/
+theorem Exec.runLocal {fn upv h pc s pc' s'} (a : Exec fn upv h pc s pc' s') :
+    ∃ n, ∀ m, runLocal fn upv (n + m) pc s h = runLocal fn upv m pc' s' h := by
+  induction a with
+  | refl => exact ⟨0, by simp⟩
+  | cons hs _ ih =>
+    obtain ⟨n, hn⟩ := ih
+    refine ⟨n + 1, fun m => ?_⟩
+    rw [Nat.add_right_comm]
+    simp only [Bytecode.runLocal, hs]
+    exact hn m
 
 theorem Exec.to {fn upv h pc s pc' s' q t} (a : Exec fn upv h pc s pc' s') (hp : pc' = q)
     (hs : s' = t) : Exec fn upv h pc s q t := by
@@ -84,18 +94,14 @@ theorem SegAt.to {code b c q} (a : SegAt code b c) (hp : b = q) : SegAt code q c
 /-- one instruction that continues -/
 theorem Exec.step {fn upv h pc stk i pc' stk'}
     (hf : fn.instrs[pc]? = some i)
-    (hs : stepInstr fn upv i pc stk h = .next pc' stk' h) : Exec fn upv h pc stk pc' stk' := by
-  refine ⟨1, fun m => ?_⟩
-  rw [Nat.add_comm]
-  simp [runLocal, stepLocal, hf, hs]
+    (hs : stepInstr fn upv i pc stk h = .next pc' stk' h) : Exec fn upv h pc stk pc' stk' :=
+  .cons (by simp [stepLocal, hf, hs]) (.refl _ _)
 
 /-- one instruction that fails -/
 theorem ExecErr.step {fn upv h pc stk i e}
     (hf : fn.instrs[pc]? = some i)
-    (hs : stepInstr fn upv i pc stk h = .err e) : ExecErr fn upv h pc stk e := by
-  refine ⟨1, fun m => ?_⟩
-  rw [Nat.add_comm]
-  simp [runLocal, stepLocal, hf, hs]
+    (hs : stepInstr fn upv i pc stk h = .err e) : ExecErr fn upv h pc stk e :=
+  ⟨pc, stk, .refl _ _, by simp [stepLocal, hf, hs]⟩
 
 /-! ### Stack helpers -/
 
@@ -152,6 +158,9 @@ theorem SameTabs.ext {a b : FState} (h : SameTabs a b) : Ext a b := by
 theorem SameTabs.ext' {a b : FState} (h : SameTabs a b) : Ext b a := by
   obtain ⟨h1, h2, h3⟩ := h
   exact ⟨h1 ▸ List.prefix_refl _, h2 ▸ List.prefix_refl _, h3 ▸ List.prefix_refl _⟩
+
+theorem SameTabs.trans {a b c : FState} (h₁ : SameTabs a b) (h₂ : SameTabs b c) : SameTabs a c :=
+  ⟨h₁.1.trans h₂.1, h₁.2.1.trans h₂.2.1, h₁.2.2.trans h₂.2.2⟩
 
 theorem same_emit (st : FState) (i : Instr) : SameTabs st (st.emit i) := ⟨rfl, rfl, rfl⟩
 theorem same_enter (st : FState) : SameTabs st st.enterScope := ⟨rfl, rfl, rfl⟩
@@ -475,7 +484,7 @@ theorem args_nil (seIdx : Nat) : ArgsSpec seIdx [] := by
   intro fn upv fv h fuel ρ stk _ _ _ _ _
   refine ⟨fun vs hv => ?_, fun he => ?_⟩
   · cases fuel <;> simp [evalList] at hv
-    subst hv; simpa [compileArgs] using Exec.refl fn upv h b stk
+    subst hv; simpa [compileArgs] using Exec.refl (fn := fn) (upv := upv) (h := h) b stk
   · cases fuel <;> simp [evalList] at he
 
 theorem args_cons {seIdx : Nat} {e : Expr} {es : List Expr} (he : WrapSpec seIdx e)
@@ -548,6 +557,14 @@ def patOk : Pat → Bool
   | .lit (.int _) => true
   | .lit (.char _) => true
   | .lit (.byte _) => true
+  /- record patterns on closed rows that compile to `GetOffset`s (compile_let_pattern :1057) -/
+  | .record nfields poly fields _ =>
+    !poly && decide (fields.length = 0 ∨ (nfields > 4 ∧ nfields / fields.length ≥ 4)) &&
+      fields.all (fun f => f.index.isSome) && !(fields.map (·.binder)).contains dummySym
+  | _ => false
+
+def isRec : Pat → Bool
+  | .record _ _ _ _ => true
   | _ => false
 
 theorem emit_emit_test (st : FState) (t : Nat) :
@@ -561,7 +578,7 @@ theorem testCode_state (seIdx : Nat) (p : Pat) (st : FState) (hp : patOk p = tru
   | ctor tag args => cases tag <;> simp_all [patOk, testCode, emit_emit_test]
   | ident x => simp [testCode]
   | lit l => cases l <;> simp_all [patOk, testCode]
-  | record _ _ _ _ => simp [patOk] at hp
+  | record _ _ _ _ => simp [testCode]
 
 theorem patchLast_length (c : List Instr) (t : Nat) : (patchLast c t).length = c.length := by
   unfold patchLast
@@ -592,7 +609,8 @@ theorem step_push (fn : Fn) (upv : List Val) (pc k : Nat) (s : List Val) (v : Va
 
 /-- The test of one alternative: jumps to the alternative's code when the pattern selects the
     scrutinee, falls through to the next test otherwise; the stack is as before. -/
-theorem test_exec (seIdx : Nat) (p : Pat) (hp : patOk p = true) (st : FState) (fn : Fn)
+theorem test_exec (seIdx : Nat) (p : Pat) (hp : patOk p = true) (hnr : isRec p = false)
+    (st : FState) (fn : Fn)
     (upv : List Val) (h : Heap) (stk : List Val) (sv : Val) (ρ : Env) (T s : Nat)
     (hz : st.stackSize = stk.length + 1)
     (hseg : SegAt fn.instrs T (patchLast (testCode seIdx p st).1 s)) :
@@ -600,7 +618,7 @@ theorem test_exec (seIdx : Nat) (p : Pat) (hp : patOk p = true) (st : FState) (f
     (matchPat p sv ρ = some none →
       Exec fn upv h T (stk ++ [sv]) (T + (testCode seIdx p st).1.length) (stk ++ [sv])) := by
   cases p with
-  | record _ _ _ _ => simp [patOk] at hp
+  | record _ _ _ _ => simp [isRec] at hnr
   | ident x =>
     simp only [testCode, patchLast] at hseg
     simp at hseg
@@ -792,20 +810,140 @@ theorem bindAll_dummy : ∀ (args : List Sym) (fs : List Val) (ρ : Env),
     apply bindAll_dummy xs vs _ hc.2
     simp [lookup, hc.1, h]
 
+/-! ### Record patterns by `GetOffset` -/
+
+theorem fieldLoads_cons (r : Nat) (f : PatField) (fs : List PatField) (st : FState) :
+    fieldLoads false r (f :: fs) st =
+      (.push r :: .getOffset (f.index.getD 0) ::
+        (fieldLoads false r fs (((st.emit (.push r)).emit (.getOffset (f.index.getD 0))).newStackVar
+          f.binder)).1,
+       (fieldLoads false r fs (((st.emit (.push r)).emit (.getOffset (f.index.getD 0))).newStackVar
+          f.binder)).2) := by
+  simp [fieldLoads]
+
+theorem fieldLoads_static (r : Nat) : ∀ (fields : List PatField) (st : FState)
+    (S : List (Sym × Nat)) (rest : List (List (Sym × Nat))), st.scopes = S :: rest →
+    (fieldLoads false r fields st).2.scopes =
+      (varsOf st.stackSize (fields.map (·.binder)) ++ S) :: rest ∧
+    (fieldLoads false r fields st).2.stackSize = st.stackSize + fields.length ∧
+    SameTabs st (fieldLoads false r fields st).2 ∧
+    (fieldLoads false r fields st).1.length = 2 * fields.length
+  | [], st, S, rest, h => by simp [fieldLoads, varsOf, h]; exact ⟨rfl, rfl, rfl⟩
+  | f :: fs, st, S, rest, h => by
+    have h1 : (((st.emit (.push r)).emit (.getOffset (f.index.getD 0))).newStackVar f.binder).scopes =
+        ((f.binder, st.stackSize) :: S) :: rest := by
+      simp [FState.newStackVar, FState.emit, h, adjustSize, Instr.adjust]
+    have h2 : (((st.emit (.push r)).emit (.getOffset (f.index.getD 0))).newStackVar f.binder).stackSize =
+        st.stackSize + 1 := by
+      simp [FState.newStackVar, FState.emit, h, adjustSize, Instr.adjust]
+    have h3 : SameTabs st
+        (((st.emit (.push r)).emit (.getOffset (f.index.getD 0))).newStackVar f.binder) :=
+      ((same_emit st _).trans (same_emit _ _)).trans (same_newStackVar _ _)
+    obtain ⟨a, b, c, d⟩ := fieldLoads_static r fs _ _ rest h1
+    rw [fieldLoads_cons]
+    refine ⟨by rw [a, h2]; simp [varsOf], by rw [b, h2]; simp; omega, h3.trans c, by simp [d]; omega⟩
+
+theorem step_getOffset (fn : Fn) (upv : List Val) (pc i t : Nat) (s fs : List Val)
+    (ns : List String) (h : Heap) (w : Val) (hw : fs[i]? = some w) :
+    stepInstr fn upv (.getOffset i) pc (s ++ [.data t fs ns]) h = .next (pc + 1) (s ++ [w]) h := by
+  have h2 : popN (s ++ [.data t fs ns]) 1 = s := popN_append s [_] 1 rfl
+  simp [stepInstr, asData, h2, hw]
+
+theorem fieldLoads_exec (fn : Fn) (upv : List Val) (fv : List Sym) (h : Heap) (r t : Nat)
+    (fs : List Val) (ns : List String) (rest : List (List (Sym × Nat))) :
+    ∀ (fields : List PatField) (st : FState) (stk : List Val) (ρ ρ' : Env) (S : List (Sym × Nat))
+      (B : Nat),
+      stk[r]? = some (.data t fs ns) → Agree fv upv (S :: rest) ρ stk →
+      lookup ρ dummySym = none → (fields.map (·.binder)).contains dummySym = false →
+      bindFields false fields fs ns ρ = some ρ' →
+      SegAt fn.instrs B (fieldLoads false r fields st).1 →
+      ∃ X : List Val, X.length = fields.length ∧
+        Exec fn upv h B stk (B + (fieldLoads false r fields st).1.length) (stk ++ X) ∧
+        Agree fv upv ((varsOf stk.length (fields.map (·.binder)) ++ S) :: rest) ρ' (stk ++ X) ∧
+        lookup ρ' dummySym = none
+  | [], st, stk, ρ, ρ', S, B, _, hag, hd, _, hb, _ => by
+    simp only [bindFields, Option.some.injEq] at hb
+    subst hb
+    exact ⟨[], rfl, by simpa [fieldLoads] using Exec.refl (fn := fn) (upv := upv) (h := h) B stk,
+      by simpa [varsOf] using hag, hd⟩
+  | f :: fields, st, stk, ρ, ρ', S, B, hr, hag, hd, hnd, hb, hseg => by
+    simp only [List.map_cons, List.contains_cons, Bool.or_eq_false_iff, beq_eq_false_iff_ne,
+      ne_eq] at hnd
+    simp only [bindFields] at hb
+    cases hfo : fieldOf false f fs ns with
+    | none => simp [hfo] at hb
+    | some w =>
+      simp only [hfo] at hb
+      have hidx : ∃ i, f.index = some i ∧ fs[i]? = some w := by
+        simp only [fieldOf, Bool.false_eq_true, if_false] at hfo
+        cases hi : f.index with
+        | none => simp [hi] at hfo
+        | some i => exact ⟨i, rfl, by simpa [hi] using hfo⟩
+      obtain ⟨i, hi, hw⟩ := hidx
+      rw [fieldLoads_cons] at hseg ⊢
+      have e1 := Exec.step (upv := upv) (h := h) hseg.head (step_push fn upv B r stk _ h hr)
+      have e2 := Exec.step (upv := upv) (h := h) hseg.tail.head
+        (by rw [hi]; exact step_getOffset fn upv (B + 1) i t stk fs ns h w hw :
+          stepInstr fn upv (.getOffset (f.index.getD 0)) (B + 1) (stk ++ [.data t fs ns]) h =
+            .next (B + 1 + 1) (stk ++ [w]) h)
+      have hr' : (stk ++ [w])[r]? = some (.data t fs ns) := by
+        have : r < stk.length := by
+          rcases Nat.lt_or_ge r stk.length with h' | h'
+          · exact h'
+          · rw [List.getElem?_eq_none h'] at hr; cases hr
+        rw [List.getElem?_append_left this]; exact hr
+      have hd' : lookup ((f.binder, w) :: ρ) dummySym = none := by
+        have : ¬ dummySym = f.binder := hnd.1
+        simp [lookup, this, hd]
+      obtain ⟨X, hX, ex, hag', hdum'⟩ := fieldLoads_exec fn upv fv h r t fs ns rest fields
+        (((st.emit (.push r)).emit (.getOffset (f.index.getD 0))).newStackVar f.binder)
+        (stk ++ [w]) ((f.binder, w) :: ρ) ρ' ((f.binder, stk.length) :: S) (B + 1 + 1) hr'
+        hag.bind hd' hnd.2 hb hseg.tail.tail
+      refine ⟨w :: X, by simp [hX], ?_, ?_, hdum'⟩
+      · exact ((e1.trans e2).trans ex).to (by simp only [List.length_cons]; omega) (by simp)
+      · simpa [varsOf] using hag'
+
 /-- the variables the prologue of an alternative registers (`n` = number of slots below the
     scrutinee) -/
 def patVars (n : Nat) : Pat → List (Sym × Nat)
   | .ctor _ args => varsOf n args
   | .ident x => [(x, n)]
   | .lit _ => [(dummySym, n)]
-  | _ => []
+  | .record _ _ fields _ => varsOf (n + 1) (fields.map (·.binder)) ++ [(dummySym, n)]
+
+theorem patOk_record {nfields poly fields byType} (hp : patOk (.record nfields poly fields byType) = true) :
+    poly = false ∧ (fields.length = 0 ∨ (nfields > 4 ∧ nfields / fields.length ≥ 4)) ∧
+    (fields.map (·.binder)).contains dummySym = false := by
+  simp only [patOk, Bool.and_eq_true, Bool.not_eq_true', decide_eq_true_eq] at hp
+  exact ⟨hp.1.1.1, hp.1.1.2, hp.2⟩
+
+theorem prologue_record (nfields : Nat) (fields : List PatField) (byType : List (Option Sym))
+    (st : FState) (hc : fields.length = 0 ∨ (nfields > 4 ∧ nfields / fields.length ≥ 4)) :
+    prologue (.record nfields false fields byType) st =
+      fieldLoads false ((st.newStackVar dummySym).stackSize - 1) fields (st.newStackVar dummySym) := by
+  simp only [prologue]
+  rw [if_pos (by
+    rcases hc with h | h
+    · exact Or.inl h
+    · exact Or.inr (Or.inl h))]
 
 theorem prologue_static (p : Pat) (hp : patOk p = true) (st : FState) (n : Nat)
     (hz : st.stackSize = n + 1) :
     (prologue p st.enterScope).2.scopes = patVars n p :: st.scopes ∧
     (prologue p st.enterScope).2.stackSize = n + (patVars n p).length := by
   cases p with
-  | record _ _ _ _ => simp [patOk] at hp
+  | record nfields poly fields byType =>
+    obtain ⟨hpoly, hcond, _⟩ := patOk_record hp
+    subst hpoly
+    have h1 : (st.enterScope.newStackVar dummySym).scopes = [(dummySym, n)] :: st.scopes := by
+      simp [FState.newStackVar, FState.enterScope, hz]
+    have h2 : (st.enterScope.newStackVar dummySym).stackSize = n + 1 := by
+      simp [FState.newStackVar, FState.enterScope, hz]
+    obtain ⟨a, b, _, _⟩ := fieldLoads_static ((st.enterScope.newStackVar dummySym).stackSize - 1)
+      fields _ _ st.scopes h1
+    rw [prologue_record _ _ _ _ hcond, a, b, h2]
+    simp [patVars, varsOf_length]
+    omega
   | ident x => simp [prologue, FState.newStackVar, FState.enterScope, patVars, hz]
   | lit l => simp [prologue, FState.newStackVar, FState.enterScope, patVars, hz]
   | ctor tag args =>
@@ -816,6 +954,34 @@ theorem prologue_static (p : Pat) (hp : patOk p = true) (st : FState) (n : Nat)
     simp only [prologue, patVars]
     rw [a, b, h2]
     simp [varsOf_length]
+
+theorem same_pushVars : ∀ (xs : List Sym) (st : FState), SameTabs st (pushVars xs st)
+  | [], st => ⟨rfl, rfl, rfl⟩
+  | x :: xs, st => by
+    rw [pushVars_cons]
+    have h1 : SameTabs st (st.pushStackVar x) := by
+      unfold FState.pushStackVar
+      exact SameTabs.trans (b := { st with stackSize := st.stackSize + 1 }) ⟨rfl, rfl, rfl⟩
+        (same_newStackVar _ x)
+    exact h1.trans (same_pushVars xs _)
+
+theorem prologue_same (p : Pat) (hp : patOk p = true) (st : FState) :
+    SameTabs st (prologue p st.enterScope).2 := by
+  cases p with
+  | record nfields poly fields byType =>
+    obtain ⟨hpoly, hcond, _⟩ := patOk_record hp
+    subst hpoly
+    have h1 : (st.enterScope.newStackVar dummySym).scopes =
+        [(dummySym, st.stackSize - 1)] :: st.scopes := by
+      simp [FState.newStackVar, FState.enterScope]
+    obtain ⟨_, _, c, _⟩ := fieldLoads_static ((st.enterScope.newStackVar dummySym).stackSize - 1)
+      fields _ _ st.scopes h1
+    rw [prologue_record _ _ _ _ hcond]
+    exact ((same_enter st).trans (same_newStackVar _ _)).trans c
+  | ident x => exact (same_enter st).trans (same_newStackVar _ x)
+  | lit l => exact (same_enter st).trans (same_newStackVar _ _)
+  | ctor tag args =>
+    exact ((same_enter st).trans (same_emit _ _)).trans (same_pushVars args _)
 
 theorem step_split (fn : Fn) (upv : List Val) (pc t : Nat) (s fs : List Val) (ns : List String)
     (h : Heap) :
@@ -841,6 +1007,7 @@ theorem Agree.dummy {fv upv S rest ρ stk n} (h : Agree fv upv (S :: rest) ρ st
     pattern's variables, which then agree with the extended environment. -/
 theorem prologue_exec (p : Pat) (hp : patOk p = true) (st : FState) (fn : Fn) (upv : List Val)
     (fv : List Sym) (h : Heap) (stk : List Val) (sv : Val) (ρ ρ' : Env) (B : Nat)
+    (hz : st.stackSize = stk.length + 1)
     (hag : Agree fv upv st.scopes ρ stk) (hdum : lookup ρ dummySym = none)
     (hm : matchPat p sv ρ = some (some ρ'))
     (hseg : SegAt fn.instrs B (prologue p st.enterScope).1) :
@@ -849,12 +1016,35 @@ theorem prologue_exec (p : Pat) (hp : patOk p = true) (st : FState) (fn : Fn) (u
       Agree fv upv (patVars stk.length p :: st.scopes) ρ' (stk ++ X) ∧
       lookup ρ' dummySym = none := by
   cases p with
-  | record _ _ _ _ => simp [patOk] at hp
+  | record nfields poly fields byType =>
+    obtain ⟨hpoly, hcond, hnd⟩ := patOk_record hp
+    subst hpoly
+    cases sv with
+    | data t fs ns =>
+      have hb : bindFields false fields fs ns ρ = some ρ' := by
+        simp only [matchPat] at hm
+        cases hbf : bindFields false fields fs ns ρ with
+        | none => simp [hbf] at hm
+        | some r => simp [hbf] at hm; rw [hm]
+      have h2 : (st.enterScope.newStackVar dummySym).stackSize - 1 = stk.length := by
+        simp [FState.newStackVar, FState.enterScope, hz]
+      rw [prologue_record _ _ _ _ hcond, h2] at hseg ⊢
+      have hbase : Agree fv upv ([(dummySym, stk.length)] :: st.scopes) ρ (stk ++ [.data t fs ns]) :=
+        ((hag.enter).dummy hdum).append _
+      obtain ⟨X, hX, ex, hag', hdum'⟩ := fieldLoads_exec fn upv fv h stk.length t fs ns st.scopes
+        fields (st.enterScope.newStackVar dummySym) (stk ++ [.data t fs ns]) ρ ρ'
+        [(dummySym, stk.length)] B (by simp) hbase hdum hnd hb hseg
+      refine ⟨.data t fs ns :: X, by simp [patVars, varsOf_length, hX], ?_, ?_, hdum'⟩
+      · exact ex.to rfl (by simp)
+      · have : (stk ++ [Val.data t fs ns]).length = stk.length + 1 := by simp
+        rw [this] at hag'
+        simpa [patVars] using hag'
+    | _ => simp [matchPat] at hm
   | ident x =>
     simp only [patOk, decide_eq_true_eq] at hp
     simp only [matchPat, Option.some.injEq] at hm
     subst hm
-    refine ⟨[sv], rfl, by simpa [prologue] using Exec.refl fn upv h B (stk ++ [sv]), ?_, ?_⟩
+    refine ⟨[sv], rfl, by simpa [prologue] using Exec.refl (fn := fn) (upv := upv) (h := h) B (stk ++ [sv]), ?_, ?_⟩
     · have := (hag.enter).bind (x := x) (v := sv)
       simpa [patVars] using this
     · have : ¬ dummySym = x := fun e => hp e.symm
@@ -866,7 +1056,7 @@ theorem prologue_exec (p : Pat) (hp : patOk p = true) (st : FState) (fn : Fn) (u
       | none => simp [hl] at hm
       | some b => cases b <;> simp [hl] at hm; exact hm.symm
     subst hρ
-    refine ⟨[sv], rfl, by simpa [prologue] using Exec.refl fn upv h B (stk ++ [sv]), ?_, hdum⟩
+    refine ⟨[sv], rfl, by simpa [prologue] using Exec.refl (fn := fn) (upv := upv) (h := h) B (stk ++ [sv]), ?_, hdum⟩
     have := ((hag.enter).dummy (n := stk.length) hdum).append [sv]
     simpa [patVars] using this
   | ctor tag args =>
@@ -944,7 +1134,8 @@ def AltsSpec (seIdx : Nat) (alts : List (Pat × Expr)) : Prop :=
 
 theorem alts_nil (seIdx : Nat) : AltsSpec seIdx [] := by
   intro tail b st n hz
-  refine ⟨by simp [compileAlts], by simp [compileAlts, hz], by simp [compileAlts], ?_⟩
+  refine ⟨by simp [compileAlts], by simp [compileAlts, hz], by simp [compileAlts],
+    by simpa [compileAlts] using Ext.refl st, ?_⟩
   intros
   simp [compileAlts, AltsDyn]
 
@@ -953,7 +1144,8 @@ theorem alts_cons {seIdx : Nat} {p : Pat} {e : Expr} {alts : List (Pat × Expr)}
     AltsSpec seIdx ((p, e) :: alts) := by
   intro tail b st n hz
   obtain ⟨hps, hpz⟩ := prologue_static p hp st n hz
-  obtain ⟨hs2, hz2, hd2⟩ := he tail (b + (prologue p st.enterScope).1.length)
+  have hpsame := prologue_same p hp st
+  obtain ⟨hs2, hz2, hx2, hd2⟩ := he tail (b + (prologue p st.enterScope).1.length)
     (prologue p st.enterScope).2
   rw [compileAlts_cons]
   generalize hR2 : compileE seIdx e tail (b + (prologue p st.enterScope).1.length)
@@ -971,19 +1163,23 @@ theorem alts_cons {seIdx : Nat} {p : Pat} {e : Expr} {alts : List (Pat × Expr)}
     · rename_i h0; simp [hz2, hpz, h0]
     · simp [FState.emit, adjustSize_slide, hz2, hpz]
       omega
+  have hf2t : SameTabs R2.2 (finishScope (([] : List Instr), R2.2)).2 :=
+    same_finish (([] : List Instr), R2.2)
   generalize hR3 : finishScope (([] : List Instr), R2.2) = R3 at *
-  obtain ⟨ha1, ha2, ha3, had⟩ := hes tail
+  obtain ⟨ha1, ha2, ha3, hax, had⟩ := hes tail
     (b + ((prologue p st.enterScope).1 ++ R2.1 ++ R3.1).length + 1) R3.2 n hf2z
-  refine ⟨by rw [ha1, hf2s], ha2, by simp only [List.length_cons, ha3], ?_⟩
-  intro fn upv h ρ stk sv endPc hlen hag hdum hseg
+  refine ⟨by rw [ha1, hf2s], ha2, by simp only [List.length_cons, ha3],
+    ((hpsame.ext.trans hx2).trans hf2t.ext).trans hax, ?_⟩
+  intro fn upv fv h ρ stk sv endPc hlen hag hdum htab hseg
   simp only [joinBodies] at hseg
   refine ⟨?_, ?_⟩
   · intro fuel ρ' hm
     have hsegc := hseg.left.left
-    obtain ⟨X, hX, ex1, hag', hdum'⟩ := prologue_exec p hp st fn upv h stk sv ρ ρ' b hag hdum hm
-      hsegc.left.left
+    obtain ⟨X, hX, ex1, hag', hdum'⟩ := prologue_exec p hp st fn upv fv h stk sv ρ ρ' b
+      (by rw [hz, hlen]) hag hdum hm hsegc.left.left
     rw [hlen] at hX hag'
-    obtain ⟨hok, herr⟩ := hd2 fn upv h fuel ρ' (stk ++ X) hsegc.left.right
+    obtain ⟨hok, herr⟩ := hd2 fn upv fv h fuel ρ' (stk ++ X) hsegc.left.right
+      (htab.of_ext (hf2t.ext.trans hax))
       (by simp [hpz, hX, hlen]) (by rw [hps]; exact hag') hdum'
     refine ⟨fun v hv => ?_, fun hv => ex1.thenErr (herr hv)⟩
     have ex2 := ex1.trans (hok v hv)
@@ -1002,7 +1198,7 @@ theorem alts_cons {seIdx : Nat} {p : Pat} {e : Expr} {alts : List (Pat × Expr)}
       have ex4 := Exec.step (stk := stk ++ [v]) (upv := upv) (h := h) hjmp (step_jump fn upv _ _ _ h)
       exact (((ex2.to (by simp only [List.length_append]; omega) rfl).trans ex3).to
         (by simp only [List.length_append, List.length_cons, List.length_nil]; omega) rfl).trans ex4
-  · have := had fn upv h ρ stk sv endPc hlen (by rw [hf2s]; exact hag) hdum
+  · have := had fn upv fv h ρ stk sv endPc hlen (by rw [hf2s]; exact hag) hdum htab
       (hseg.right.to (by simp only [List.length_append, List.length_cons, List.length_nil]; omega))
     exact this
 
@@ -1046,19 +1242,21 @@ theorem endOf_eq (e : Nat) : ∀ (cs : List (List Instr)) (B : Nat),
 theorem dispatch (seIdx : Nat) (fn : Fn) (upv : List Val) (h : Heap) (ρ : Env) (stk : List Val)
     (sv : Val) (endPc : Nat) :
     ∀ (alts : List (Pat × Expr)) (cs : List (List Instr)) (T B fuel : Nat) (st : FState),
-      (∀ a ∈ alts, patOk a.1 = true) → st.stackSize = stk.length + 1 → cs.length = alts.length →
+      (∀ a ∈ alts, patOk a.1 = true) → (∀ a ∈ alts, isRec a.1 = false) →
+      st.stackSize = stk.length + 1 → cs.length = alts.length →
       SegAt fn.instrs T (patchTests (testsOf seIdx alts st).1 (startsOf B cs)) →
       AltsDyn fn upv h ρ stk sv endPc alts cs B →
       (∀ v, evalAlts fuel ρ sv alts = .ok v → Exec fn upv h T (stk ++ [sv]) endPc (stk ++ [v])) ∧
       (evalAlts fuel ρ sv alts = .error .arith → ExecErr fn upv h T (stk ++ [sv]) .arith)
-  | [], cs, T, B, fuel, st, _, _, _, _, _ => by
+  | [], cs, T, B, fuel, st, _, _, _, _, _, _ => by
     cases fuel <;> simp [evalAlts]
-  | (p, e) :: alts, [], _, _, _, _, _, _, hl, _, _ => by simp at hl
-  | (p, e) :: alts, c :: cs, T, B, fuel, st, hok, hz, hl, hseg, hdyn => by
+  | (p, e) :: alts, [], _, _, _, _, _, _, _, hl, _, _ => by simp at hl
+  | (p, e) :: alts, c :: cs, T, B, fuel, st, hok, hnr, hz, hl, hseg, hdyn => by
     have hp := hok (p, e) (by simp)
     rw [testsOf_cons _ _ _ _ _ hp] at hseg
     simp only [startsOf, patchTests] at hseg
-    obtain ⟨hsel, hnext⟩ := test_exec seIdx p hp st fn upv h stk sv ρ T B hz hseg.left
+    obtain ⟨hsel, hnext⟩ := test_exec seIdx p hp (hnr (p, e) (by simp)) st fn upv h stk sv ρ T B hz
+      hseg.left
     obtain ⟨hhead, htail⟩ := hdyn
     cases fuel with
     | zero => simp [evalAlts]
@@ -1074,7 +1272,8 @@ theorem dispatch (seIdx : Nat) (fn : Fn) (upv : List Val) (h : Heap) (ρ : Env) 
         | none =>
           have ih := dispatch seIdx fn upv h ρ stk sv endPc alts cs
             (T + (testCode seIdx p st).1.length) (B + c.length + 1) n st
-            (fun a ha => hok a (by simp [ha])) hz (by simpa using hl)
+            (fun a ha => hok a (by simp [ha])) (fun a ha => hnr a (by simp [ha])) hz
+            (by simpa using hl)
             (hseg.right.to (by rw [patchLast_length])) htail
           exact ⟨fun v hv => (hnext hm).trans (ih.1 v hv), fun hv => (hnext hm).thenErr (ih.2 hv)⟩
 
@@ -1102,19 +1301,20 @@ theorem compileBody_match (seIdx s alts tail b st) :
 
 /-- `Match`: scrutinee, tests, alternatives. -/
 theorem match_spec {seIdx : Nat} {s : Expr} {alts : List (Pat × Expr)}
-    (hs : WrapSpec seIdx s) (hpat : ∀ a ∈ alts, patOk a.1 = true) (ha : AltsSpec seIdx alts) :
+    (hs : WrapSpec seIdx s) (hpat : ∀ a ∈ alts, patOk a.1 = true)
+    (hnr : ∀ a ∈ alts, isRec a.1 = false) (ha : AltsSpec seIdx alts) :
     BodySpec seIdx (.match_ s alts) := by
   intro tail b st S rest hsc
-  obtain ⟨hs0, hz0, hd0⟩ := hs false b st
+  obtain ⟨hs0, hz0, hx0, hd0⟩ := hs false b st
   rw [compileBody_match]
   generalize hR0 : compileE seIdx s false b st = R0 at *
   obtain ⟨hts, htl⟩ := testsOf_state seIdx alts R0.2 hpat
   rw [hts]
   generalize hTS : (testsOf seIdx alts R0.2).1 = TS at *
-  obtain ⟨ha1, ha2, ha3, had⟩ := ha tail (b + R0.1.length + testsLen TS) R0.2 st.stackSize hz0
+  obtain ⟨ha1, ha2, ha3, hax, had⟩ := ha tail (b + R0.1.length + testsLen TS) R0.2 st.stackSize hz0
   generalize hRA : compileAlts seIdx alts tail (b + R0.1.length + testsLen TS) R0.2 = RA at *
-  refine ⟨[], by simp [ha1, hs0, hsc], by simp [ha2], ?_⟩
-  intro fn upv h fuel ρ stk hseg hlen hag hdum
+  refine ⟨[], by simp [ha1, hs0, hsc], by simp [ha2], hx0.trans hax, ?_⟩
+  intro fn upv fv h fuel ρ stk hseg htab hlen hag hdum
   have hptl : (patchTests TS (startsOf (b + R0.1.length + testsLen TS) RA.1)).length = testsLen TS :=
     patchTests_length _ _ (by rw [startsOf_length, htl, ha3])
   have hend := endOf_eq (endOf (b + R0.1.length + testsLen TS) RA.1) RA.1
@@ -1122,7 +1322,7 @@ theorem match_spec {seIdx : Nat} {s : Expr} {alts : List (Pat × Expr)}
   cases fuel with
   | zero => simp [evalCore]
   | succ n =>
-    obtain ⟨hok0, herr0⟩ := hd0 fn upv h n ρ stk hseg.left.left hlen hag hdum
+    obtain ⟨hok0, herr0⟩ := hd0 fn upv fv h n ρ stk hseg.left.left (htab.of_ext hax) hlen hag hdum
     simp only [evalCore]
     cases he0 : evalCore n ρ s with
     | error err =>
@@ -1131,24 +1331,82 @@ theorem match_spec {seIdx : Nat} {s : Expr} {alts : List (Pat × Expr)}
       exact herr0 he0
     | ok sv =>
       have ex0 := hok0 sv he0
-      have hdyn := had fn upv h ρ stk sv (endOf (b + R0.1.length + testsLen TS) RA.1) hlen
-        (by rw [hs0]; exact hag) hdum
+      have hdyn := had fn upv fv h ρ stk sv (endOf (b + R0.1.length + testsLen TS) RA.1) hlen
+        (by rw [hs0]; exact hag) hdum htab
         (hseg.right.to (by simp only [List.length_append, hptl]; omega))
       have hd := dispatch seIdx fn upv h ρ stk sv (endOf (b + R0.1.length + testsLen TS) RA.1)
-        alts RA.1 (b + R0.1.length) (b + R0.1.length + testsLen TS) n R0.2 hpat
+        alts RA.1 (b + R0.1.length) (b + R0.1.length + testsLen TS) n R0.2 hpat hnr
         (by rw [hz0, hlen]) ha3 (by rw [hTS]; exact hseg.left.right) hdyn
       refine ⟨fun v hv => ⟨[], rfl, ?_⟩, fun hv => ex0.thenErr (hd.2 hv)⟩
       exact (ex0.trans (hd.1 v hv)).to
         (by simp only [List.length_append, hptl]; omega) (by simp)
 
+/-- `Match` with a record pattern as its only alternative (what a projection `e.field` and
+    `let { … } = e` become): no test, the prologue starts right after the scrutinee. -/
+theorem match_spec_record {seIdx : Nat} {s : Expr} {p : Pat} {e : Expr}
+    (hs : WrapSpec seIdx s) (hp : patOk p = true) (hr : isRec p = true)
+    (ha : AltsSpec seIdx [(p, e)]) :
+    BodySpec seIdx (.match_ s [(p, e)]) := by
+  intro tail b st S rest hsc
+  obtain ⟨hs0, hz0, hx0, hd0⟩ := hs false b st
+  rw [compileBody_match]
+  generalize hR0 : compileE seIdx s false b st = R0 at *
+  have hts : testsOf seIdx [(p, e)] R0.2 = ([[]], R0.2) := by
+    cases p with
+    | record _ _ _ _ => simp [testsOf, testCode]
+    | ctor _ _ => simp [isRec] at hr
+    | ident _ => simp [isRec] at hr
+    | lit _ => simp [isRec] at hr
+  rw [hts]
+  simp only [testsLen, Nat.add_zero]
+  obtain ⟨ha1, ha2, ha3, hax, had⟩ := ha tail (b + R0.1.length) R0.2 st.stackSize hz0
+  generalize hRA : compileAlts seIdx [(p, e)] tail (b + R0.1.length) R0.2 = RA at *
+  match RA, ha3 with
+  | (c :: [], stA), _ =>
+    simp only [startsOf, patchTests, patchLast, List.getLast?_nil, List.append_nil]
+    refine ⟨[], by simpa [hs0, hsc] using ha1, by simpa using ha2, hx0.trans hax, ?_⟩
+    intro fn upv fv h fuel ρ stk hseg htab hlen hag hdum
+    cases fuel with
+    | zero => simp [evalCore]
+    | succ n =>
+      obtain ⟨hok0, herr0⟩ := hd0 fn upv fv h n ρ stk hseg.left (htab.of_ext hax) hlen hag hdum
+      simp only [evalCore]
+      cases he0 : evalCore n ρ s with
+      | error err =>
+        refine ⟨fun v hv => by simp at hv, fun he => ?_⟩
+        simp at he; subst he
+        exact herr0 he0
+      | ok sv =>
+        have ex0 := hok0 sv he0
+        have hdyn := had fn upv fv h ρ stk sv (endOf (b + R0.1.length) [c]) hlen
+          (by rw [hs0]; exact hag) hdum htab hseg.right
+        obtain ⟨hhead, _⟩ := hdyn
+        have hend : b + (R0.1 ++ joinBodies (endOf (b + R0.1.length) [c]) [c]).length =
+            endOf (b + R0.1.length) [c] := by
+          simp [endOf, joinBodies]
+          omega
+        cases n with
+        | zero => simp [evalAlts]
+        | succ k =>
+          simp only [evalAlts]
+          cases hm : matchPat p sv ρ with
+          | none => simp
+          | some o =>
+            cases o with
+            | some ρ' =>
+              obtain ⟨h1, h2⟩ := hhead k ρ' hm
+              refine ⟨fun v hv => ⟨[], rfl, ?_⟩, fun hv => ex0.thenErr (h2 hv)⟩
+              exact (ex0.trans (h1 v hv)).to hend.symm (by simp)
+            | none =>
+              cases k <;> simp [evalAlts]
+
 /-! ### The fragment -/
 
 mutual
-/-- F1: constants (strings excepted: they go through the string table), identifiers, `Cast`,
-    non-recursive `Let`, the primitive binary operators that are single instructions, `Data` of
-    variants and arrays, `&&`, `||`, `Match` over constructor / identifier / literal patterns. -/
+/-- F1: constants, identifiers (stack slots and upvalues), `Cast`, non-recursive `Let`, the
+    primitive binary operators that are single instructions, `Data` (variants, arrays, records),
+    `&&`, `||`, `Match` over constructor / identifier / int, char, byte literal patterns. -/
 def inF : Expr → Bool
-  | .const (.str _) => false
   | .const _ => true
   | .ident _ => true
   | .cast e => inF e
@@ -1161,7 +1419,9 @@ def inF : Expr → Bool
      | _ => false) && inFs args
   | .data (.variant (some _)) args => inFs args
   | .data .array args => inFs args
-  | .match_ s alts => inF s && inAlts alts
+  | .data (.record _) args => inFs args
+  | .match_ s alts =>
+    inF s && inAlts alts && (alts.all (fun a => !isRec a.1) || alts.length == 1)
   | _ => false
 def inFs : List Expr → Bool
   | [] => true
@@ -1181,30 +1441,200 @@ theorem inAlts_patOk : ∀ (alts : List (Pat × Expr)), inAlts alts = true →
     · exact h.1.1
     · exact inAlts_patOk alts h.2 a ha
 
+/-! ### Tables -/
+
+theorem indexOfSym_get : ∀ (l : List Sym) (x : Sym) (k : Nat), indexOfSym l x = some k → l[k]? = some x
+  | [], _, _, h => by simp [indexOfSym] at h
+  | y :: rest, x, k, h => by
+    simp only [indexOfSym] at h
+    by_cases hxy : x = y
+    · simp [hxy] at h; subst h; simp [hxy]
+    · simp only [hxy, if_false, Option.map_eq_some_iff] at h
+      obtain ⟨j, hj, rfl⟩ := h
+      simpa using indexOfSym_get rest x j hj
+
+theorem indexOfSym_prefix : ∀ (l₁ l₂ : List Sym) (x : Sym) (k : Nat), l₁ <+: l₂ →
+    indexOfSym l₁ x = some k → indexOfSym l₂ x = some k
+  | [], _, _, _, _, h => by simp [indexOfSym] at h
+  | y :: r₁, l₂, x, k, hp, h => by
+    obtain ⟨t, rfl⟩ := hp
+    simp only [List.cons_append, indexOfSym] at h ⊢
+    by_cases hxy : x = y
+    · simpa [hxy] using h
+    · simp only [hxy, if_false, Option.map_eq_some_iff] at h ⊢
+      obtain ⟨j, hj, rfl⟩ := h
+      exact ⟨j, indexOfSym_prefix r₁ (r₁ ++ t) x j (List.prefix_append _ _) hj, rfl⟩
+
+theorem indexOfSym_append_new : ∀ (l : List Sym) (x : Sym), indexOfSym l x = none →
+    indexOfSym (l ++ [x]) x = some l.length
+  | [], x, _ => by simp [indexOfSym]
+  | y :: rest, x, h => by
+    simp only [indexOfSym] at h
+    by_cases hxy : x = y
+    · simp [hxy] at h
+    · simp only [hxy, if_false, Option.map_eq_none_iff] at h
+      simp [indexOfSym, hxy, indexOfSym_append_new rest x h]
+
+theorem upvar_spec (st : FState) (x : Sym) :
+    indexOfSym (st.upvar x).2.freeVars x = some (st.upvar x).1 ∧ Ext st (st.upvar x).2 ∧
+    (st.upvar x).2.scopes = st.scopes ∧ (st.upvar x).2.stackSize = st.stackSize := by
+  unfold FState.upvar
+  split
+  · rename_i i hi
+    exact ⟨hi, Ext.refl st, rfl, rfl⟩
+  · rename_i hn
+    refine ⟨indexOfSym_append_new _ _ hn, ⟨List.prefix_append _ _, List.prefix_refl _, List.prefix_refl _⟩,
+      rfl, rfl⟩
+
+theorem indexOfStr_get : ∀ (l : List String) (x : String) (k : Nat), indexOfStr l x = some k →
+    l[k]? = some x
+  | [], _, _, h => by simp [indexOfStr] at h
+  | y :: rest, x, k, h => by
+    simp only [indexOfStr] at h
+    by_cases hxy : x = y
+    · simp [hxy] at h; subst h; simp [hxy]
+    · simp only [hxy, if_false, Option.map_eq_some_iff] at h
+      obtain ⟨j, hj, rfl⟩ := h
+      simpa using indexOfStr_get rest x j hj
+
+theorem addString_spec (st : FState) (x : String) :
+    (st.addString x).2.strings[(st.addString x).1]? = some x ∧ Ext st (st.addString x).2 ∧
+    (st.addString x).2.scopes = st.scopes ∧ (st.addString x).2.stackSize = st.stackSize := by
+  unfold FState.addString
+  split
+  · rename_i i hi
+    exact ⟨indexOfStr_get _ _ _ hi, Ext.refl st, rfl, rfl⟩
+  · refine ⟨by simp, ⟨List.prefix_refl _, List.prefix_append _ _, List.prefix_refl _⟩, rfl, rfl⟩
+
+theorem indexOfRec_get : ∀ (l : List (List Sym)) (x : List Sym) (k : Nat), indexOfRec l x = some k →
+    l[k]? = some x
+  | [], _, _, h => by simp [indexOfRec] at h
+  | y :: rest, x, k, h => by
+    simp only [indexOfRec] at h
+    by_cases hxy : x = y
+    · simp [hxy] at h; subst h; simp [hxy]
+    · simp only [hxy, if_false, Option.map_eq_some_iff] at h
+      obtain ⟨j, hj, rfl⟩ := h
+      simpa using indexOfRec_get rest x j hj
+
+theorem addRecord_spec (st : FState) (x : List Sym) :
+    (st.addRecord x).2.records[(st.addRecord x).1]? = some x ∧ Ext st (st.addRecord x).2 ∧
+    (st.addRecord x).2.scopes = st.scopes ∧ (st.addRecord x).2.stackSize = st.stackSize := by
+  unfold FState.addRecord
+  split
+  · rename_i i hi
+    exact ⟨indexOfRec_get _ _ _ hi, Ext.refl st, rfl, rfl⟩
+  · refine ⟨by simp, ⟨List.prefix_refl _, List.prefix_refl _, List.prefix_append _ _⟩, rfl, rfl⟩
+
+theorem step_constructRecord (fn : Fn) (upv : List Val) (pc : Nat) (s vs : List Val) (h : Heap)
+    (idx n : Nat) (names : List Sym) (hn : vs.length = n) (hr : fn.records[idx]? = some names) :
+    stepInstr fn upv (.constructRecord idx n) pc (s ++ vs) h =
+      .next (pc + 1) (s ++ [.data 0 vs (if vs.isEmpty then [] else names.map (·.name))]) h := by
+  have h1 : lastN (s ++ vs) n = vs := lastN_append s vs n hn
+  have h2 : popN (s ++ vs) n = s := popN_append s vs n hn
+  have h3 : ¬ (s.length + vs.length < n) := by omega
+  by_cases h0 : n = 0
+  · subst h0
+    have : vs = [] := List.eq_nil_of_length_eq_zero hn
+    subst this
+    simp [stepInstr, tagVal]
+  · have hne : vs.isEmpty = false := by
+      cases vs with
+      | nil => simp at hn; omega
+      | cons _ _ => rfl
+    simp [stepInstr, h1, h2, h3, h0, hr, hne]
+
+theorem compileBody_record (seIdx names args tail b st) :
+    compileBody seIdx (.data (.record names) args) tail b st =
+      ((compileArgs seIdx args b st).1 ++
+        [.constructRecord ((compileArgs seIdx args b st).2.addRecord names).1 args.length],
+       (((compileArgs seIdx args b st).2.addRecord names).2).emit
+        (.constructRecord ((compileArgs seIdx args b st).2.addRecord names).1 args.length)) := by
+  simp [compileBody]
+
 mutual
 /-- The compiler-correctness invariant for every expression of the fragment. -/
 theorem body_spec (seIdx : Nat) : ∀ (e : Expr), inF e = true → BodySpec seIdx e
-  | .const l, hF => by
+  | .const l, _ => by
     intro tail b st S rest hsc
-    refine ⟨[], ?_, ?_, ?_⟩
-    · cases l <;> simp_all [compileBody, compileLit, FState.emit, inF]
-    · cases l <;> simp_all [compileBody, compileLit, FState.emit, inF, adjustSize, Instr.adjust]
-    · intro fn upv h fuel ρ stk hseg hlen hag hdum
+    cases l with
+    | str x =>
+      obtain ⟨hget, hext, hsc', hz'⟩ := addString_spec st x
+      refine ⟨[], by simp [compileBody, compileLit, FState.emit, hsc', hsc],
+        by simp [compileBody, compileLit, FState.emit, adjustSize, Instr.adjust, hz'],
+        by simpa [compileBody, compileLit] using hext.trans (same_emit _ _).ext, ?_⟩
+      intro fn upv fv h fuel ρ stk hseg htab hlen hag hdum
       refine ⟨fun v hv => ⟨[], rfl, ?_⟩, fun he => ?_⟩
       · cases fuel with
         | zero => simp [evalCore] at hv
         | succ n =>
-          simp [evalCore] at hv; subst hv
-          cases l <;> simp [inF] at hF <;> simp [compileBody, compileLit] at hseg ⊢ <;>
-            exact Exec.step hseg.head rfl
+          simp [evalCore, litVal] at hv; subst hv
+          simp only [compileBody, compileLit] at hseg htab ⊢
+          have hs : fn.strings[(st.addString x).1]? = some x :=
+            prefix_getElem? (htab.of_ext (same_emit _ _).ext).2.1 hget
+          simpa using Exec.step hseg.head (by simp [stepInstr, hs] :
+            stepInstr fn upv (.pushString (st.addString x).1) b stk h = .next (b + 1) (stk ++ [.str x]) h)
+      · cases fuel <;> simp [evalCore] at he
+    | int n =>
+      refine ⟨[], by simp [compileBody, compileLit, FState.emit, hsc],
+        by simp [compileBody, compileLit, FState.emit, adjustSize, Instr.adjust],
+        by simpa [compileBody, compileLit] using (same_emit st _).ext, ?_⟩
+      intro fn upv fv h fuel ρ stk hseg htab hlen hag hdum
+      refine ⟨fun v hv => ⟨[], rfl, ?_⟩, fun he => ?_⟩
+      · cases fuel with
+        | zero => simp [evalCore] at hv
+        | succ k =>
+          simp [evalCore, litVal] at hv; subst hv
+          simp only [compileBody, compileLit] at hseg ⊢
+          simpa using Exec.step (upv := upv) (h := h) (stk := stk) hseg.head rfl
+      · cases fuel <;> simp [evalCore] at he
+    | byte n =>
+      refine ⟨[], by simp [compileBody, compileLit, FState.emit, hsc],
+        by simp [compileBody, compileLit, FState.emit, adjustSize, Instr.adjust],
+        by simpa [compileBody, compileLit] using (same_emit st _).ext, ?_⟩
+      intro fn upv fv h fuel ρ stk hseg htab hlen hag hdum
+      refine ⟨fun v hv => ⟨[], rfl, ?_⟩, fun he => ?_⟩
+      · cases fuel with
+        | zero => simp [evalCore] at hv
+        | succ k =>
+          simp [evalCore, litVal] at hv; subst hv
+          simp only [compileBody, compileLit] at hseg ⊢
+          simpa using Exec.step (upv := upv) (h := h) (stk := stk) hseg.head rfl
+      · cases fuel <;> simp [evalCore] at he
+    | float n =>
+      refine ⟨[], by simp [compileBody, compileLit, FState.emit, hsc],
+        by simp [compileBody, compileLit, FState.emit, adjustSize, Instr.adjust],
+        by simpa [compileBody, compileLit] using (same_emit st _).ext, ?_⟩
+      intro fn upv fv h fuel ρ stk hseg htab hlen hag hdum
+      refine ⟨fun v hv => ⟨[], rfl, ?_⟩, fun he => ?_⟩
+      · cases fuel with
+        | zero => simp [evalCore] at hv
+        | succ k =>
+          simp [evalCore, litVal] at hv; subst hv
+          simp only [compileBody, compileLit] at hseg ⊢
+          simpa using Exec.step (upv := upv) (h := h) (stk := stk) hseg.head rfl
+      · cases fuel <;> simp [evalCore] at he
+    | char n =>
+      refine ⟨[], by simp [compileBody, compileLit, FState.emit, hsc],
+        by simp [compileBody, compileLit, FState.emit, adjustSize, Instr.adjust],
+        by simpa [compileBody, compileLit] using (same_emit st _).ext, ?_⟩
+      intro fn upv fv h fuel ρ stk hseg htab hlen hag hdum
+      refine ⟨fun v hv => ⟨[], rfl, ?_⟩, fun he => ?_⟩
+      · cases fuel with
+        | zero => simp [evalCore] at hv
+        | succ k =>
+          simp [evalCore, litVal] at hv; subst hv
+          simp only [compileBody, compileLit] at hseg ⊢
+          simpa using Exec.step (upv := upv) (h := h) (stk := stk) hseg.head rfl
       · cases fuel <;> simp [evalCore] at he
   | .ident x, _ => by
     intro tail b st S rest hsc
     cases hl : lookupScopes st.scopes x with
     | some i =>
       refine ⟨[], by simpa [compileBody, loadIdent, hl, FState.emit] using hsc,
-        by simp [compileBody, loadIdent, hl, FState.emit, adjustSize, Instr.adjust], ?_⟩
-      intro fn upv h fuel ρ stk hseg hlen hag hdum
+        by simp [compileBody, loadIdent, hl, FState.emit, adjustSize, Instr.adjust],
+        by simpa [compileBody, loadIdent, hl] using (same_emit st _).ext, ?_⟩
+      intro fn upv fv h fuel ρ stk hseg htab hlen hag hdum
       refine ⟨fun v hv => ⟨[], rfl, ?_⟩, fun he => ?_⟩
       · cases fuel with
         | zero => simp [evalCore] at hv
@@ -1214,68 +1644,77 @@ theorem body_spec (seIdx : Nat) : ∀ (e : Expr), inF e = true → BodySpec seId
           | none => simp [hlk] at hv
           | some w =>
             simp [hlk] at hv; subst hv
-            obtain ⟨j, hj, hv⟩ := hag x w hlk
-            rw [hl] at hj; cases hj
-            simp [compileBody, loadIdent, hl] at hseg ⊢
-            exact Exec.step hseg.head (by simp [stepInstr, hv])
+            rcases hag x w hlk with ⟨j, hj, hv⟩ | ⟨hn, _⟩
+            · rw [hl] at hj; cases hj
+              simp [compileBody, loadIdent, hl] at hseg ⊢
+              exact Exec.step hseg.head (by simp [stepInstr, hv])
+            · rw [hl] at hn; cases hn
       · cases fuel with
         | zero => simp [evalCore] at he
         | succ n =>
           simp only [evalCore] at he
           cases hlk : lookup ρ x <;> simp [hlk] at he
     | none =>
-      refine ⟨[], ?_, ?_, ?_⟩
-      · simp only [compileBody, loadIdent, hl, FState.upvar]
-        split <;> simp [FState.emit, hsc]
-      · simp only [compileBody, loadIdent, hl, FState.upvar]
-        split <;> simp [FState.emit, adjustSize, Instr.adjust]
-      · intro fn upv h fuel ρ stk hseg hlen hag hdum
-        refine ⟨fun v hv => ?_, fun he => ?_⟩
-        · cases fuel with
-          | zero => simp [evalCore] at hv
-          | succ n =>
-            simp only [evalCore] at hv
-            cases hlk : lookup ρ x with
-            | none => simp [hlk] at hv
-            | some w =>
-              obtain ⟨j, hj, _⟩ := hag x w hlk
-              rw [hl] at hj; cases hj
-        · cases fuel with
-          | zero => simp [evalCore] at he
-          | succ n =>
-            simp only [evalCore] at he
-            cases hlk : lookup ρ x <;> simp [hlk] at he
+      obtain ⟨hidx, hext, hsc', hz'⟩ := upvar_spec st x
+      refine ⟨[], by simp only [compileBody, loadIdent, hl, FState.emit, hsc', List.nil_append]; exact hsc,
+        by simp [compileBody, loadIdent, hl, FState.emit, adjustSize, Instr.adjust, hz'],
+        by simpa [compileBody, loadIdent, hl] using hext.trans (same_emit _ _).ext, ?_⟩
+      intro fn upv fv h fuel ρ stk hseg htab hlen hag hdum
+      refine ⟨fun v hv => ⟨[], rfl, ?_⟩, fun he => ?_⟩
+      · cases fuel with
+        | zero => simp [evalCore] at hv
+        | succ n =>
+          simp only [evalCore] at hv
+          cases hlk : lookup ρ x with
+          | none => simp [hlk] at hv
+          | some w =>
+            simp [hlk] at hv; subst hv
+            rcases hag x w hlk with ⟨j, hj, _⟩ | ⟨_, k, hk, hu⟩
+            · rw [hl] at hj; cases hj
+            · simp only [compileBody, loadIdent, hl] at hseg htab ⊢
+              have hk' := indexOfSym_prefix _ _ x _ (htab.of_ext (same_emit _ _).ext).1 hidx
+              rw [hk] at hk'; cases hk'
+              simpa using Exec.step hseg.head (by simp [stepInstr, hu] :
+                stepInstr fn upv (.pushUpVar (st.upvar x).1) b stk h = .next (b + 1) (stk ++ [w]) h)
+      · cases fuel with
+        | zero => simp [evalCore] at he
+        | succ n =>
+          simp only [evalCore] at he
+          cases hlk : lookup ρ x <;> simp [hlk] at he
   | .cast e, hF => by
     have ih := body_spec seIdx e (by simpa [inF] using hF)
     intro tail b st S rest hsc
-    obtain ⟨N, h1, h2, h3⟩ := ih tail b st S rest hsc
-    refine ⟨N, by simpa [compileBody_cast] using h1, by simpa [compileBody_cast] using h2, ?_⟩
-    intro fn upv h fuel ρ stk hseg hlen hag hdum
-    rw [compileBody_cast] at hseg ⊢
+    obtain ⟨N, h1, h2, hx, h3⟩ := ih tail b st S rest hsc
+    refine ⟨N, by simpa [compileBody_cast] using h1, by simpa [compileBody_cast] using h2,
+      by simpa [compileBody_cast] using hx, ?_⟩
+    intro fn upv fv h fuel ρ stk hseg htab hlen hag hdum
+    rw [compileBody_cast] at hseg htab ⊢
     cases fuel with
     | zero => simp [evalCore]
-    | succ n => simpa [evalCore] using h3 fn upv h n ρ stk hseg hlen hag hdum
+    | succ n => simpa [evalCore] using h3 fn upv fv h n ρ stk hseg htab hlen hag hdum
   | .letE x e₁ body, hF => by
     simp only [inF, Bool.and_eq_true, decide_eq_true_eq] at hF
     obtain ⟨⟨hx, h1F⟩, h2F⟩ := hF
     have w1 := wrap_of_body (body_spec seIdx e₁ h1F)
     have ih2 := body_spec seIdx body h2F
     intro tail b st S rest hsc
-    obtain ⟨hs1, hz1, hd1⟩ := w1 false b st
+    obtain ⟨hs1, hz1, hx1, hd1⟩ := w1 false b st
     have hsc' : ((compileE seIdx e₁ false b st).2.newStackVar x).scopes =
         ((x, st.stackSize) :: S) :: rest := by
       simp [FState.newStackVar, hs1, hsc, hz1]
     have hz' : ((compileE seIdx e₁ false b st).2.newStackVar x).stackSize = st.stackSize + 1 := by
       simp only [FState.newStackVar, hs1, hsc, hz1]
-    obtain ⟨N', h1, h2, h3⟩ := ih2 tail (b + (compileE seIdx e₁ false b st).1.length)
+    obtain ⟨N', h1, h2, hx2, h3⟩ := ih2 tail (b + (compileE seIdx e₁ false b st).1.length)
       ((compileE seIdx e₁ false b st).2.newStackVar x) _ rest hsc'
+    have hx12 := (same_newStackVar (compileE seIdx e₁ false b st).2 x).ext.trans hx2
     rw [compileBody_letE]
-    refine ⟨N' ++ [(x, st.stackSize)], by simpa using h1, by simp [h2, hz']; omega, ?_⟩
-    intro fn upv h fuel ρ stk hseg hlen hag hdum
+    refine ⟨N' ++ [(x, st.stackSize)], by simpa using h1, by simp [h2, hz']; omega,
+      hx1.trans hx12, ?_⟩
+    intro fn upv fv h fuel ρ stk hseg htab hlen hag hdum
     cases fuel with
     | zero => simp [evalCore]
     | succ n =>
-      obtain ⟨hok1, herr1⟩ := hd1 fn upv h n ρ stk hseg.left hlen hag hdum
+      obtain ⟨hok1, herr1⟩ := hd1 fn upv fv h n ρ stk hseg.left (htab.of_ext hx12) hlen hag hdum
       simp only [evalCore]
       cases he1 : evalCore n ρ e₁ with
       | error err =>
@@ -1284,8 +1723,8 @@ theorem body_spec (seIdx : Nat) : ∀ (e : Expr), inF e = true → BodySpec seId
         exact herr1 he1
       | ok v₁ =>
         have ex1 := hok1 v₁ he1
-        have hag' : Agree ((compileE seIdx e₁ false b st).2.newStackVar x).scopes ((x, v₁) :: ρ)
-            (stk ++ [v₁]) := by
+        have hag' : Agree fv upv ((compileE seIdx e₁ false b st).2.newStackVar x).scopes
+            ((x, v₁) :: ρ) (stk ++ [v₁]) := by
           rw [hsc', ← hlen]
           rw [hsc] at hag
           exact hag.bind
@@ -1293,7 +1732,7 @@ theorem body_spec (seIdx : Nat) : ∀ (e : Expr), inF e = true → BodySpec seId
           simp only [lookup]
           have : ¬ dummySym = x := fun h => hx h.symm
           simp [this, hdum]
-        obtain ⟨hok2, herr2⟩ := h3 fn upv h n ((x, v₁) :: ρ) (stk ++ [v₁]) hseg.right
+        obtain ⟨hok2, herr2⟩ := h3 fn upv fv h n ((x, v₁) :: ρ) (stk ++ [v₁]) hseg.right htab
           (by simp [hz', hlen]) hag' hdum'
         refine ⟨fun v hv => ?_, fun he => ?_⟩
         · obtain ⟨L, hL, ex2⟩ := hok2 v hv
@@ -1314,17 +1753,20 @@ theorem body_spec (seIdx : Nat) : ∀ (e : Expr), inF e = true → BodySpec seId
         have w2 := wrap_of_body (body_spec seIdx rhs haF.2.1)
         have hhd' : headOf f 2 = .prim op := by simpa using hhd
         intro tail b st S rest hsc
-        obtain ⟨hs1, hz1, hd1⟩ := w1 false b st
-        obtain ⟨hs2, hz2, hd2⟩ := w2 false (b + (compileE seIdx lhs false b st).1.length)
+        obtain ⟨hs1, hz1, hx1, hd1⟩ := w1 false b st
+        obtain ⟨hs2, hz2, hx2, hd2⟩ := w2 false (b + (compileE seIdx lhs false b st).1.length)
           (compileE seIdx lhs false b st).2
         rw [compileBody_prim _ _ _ _ _ _ _ _ hhd']
-        refine ⟨[], by simp [FState.emit, hs2, hs1, hsc], ?_, ?_⟩
+        refine ⟨[], by simp [FState.emit, hs2, hs1, hsc], ?_,
+          (hx1.trans hx2).trans (same_emit _ _).ext, ?_⟩
         · simp [FState.emit, adjustSize, adjust_prim, hz2, hz1]
-        · intro fn upv h fuel ρ stk hseg hlen hag hdum
+        · intro fn upv fv h fuel ρ stk hseg htab hlen hag hdum
+          have htab2 := htab.of_ext (same_emit _ _).ext
           cases fuel with
           | zero => simp [evalCore]
           | succ n =>
-            obtain ⟨hok1, herr1⟩ := hd1 fn upv h n ρ stk hseg.left.left hlen hag hdum
+            obtain ⟨hok1, herr1⟩ := hd1 fn upv fv h n ρ stk hseg.left.left (htab2.of_ext hx2)
+              hlen hag hdum
             simp only [evalCore, List.length_cons, List.length_nil, hhd']
             cases he1 : evalCore n ρ lhs with
             | error err =>
@@ -1333,7 +1775,7 @@ theorem body_spec (seIdx : Nat) : ∀ (e : Expr), inF e = true → BodySpec seId
               exact herr1 he1
             | ok x =>
               have ex1 := hok1 x he1
-              obtain ⟨hok2, herr2⟩ := hd2 fn upv h n ρ (stk ++ [x]) hseg.left.right
+              obtain ⟨hok2, herr2⟩ := hd2 fn upv fv h n ρ (stk ++ [x]) hseg.left.right htab2
                 (by simp [hz1, hlen]) (by rw [hs1]; exact hag.append [x]) hdum
               cases he2 : evalCore n ρ rhs with
               | error err =>
@@ -1366,19 +1808,22 @@ theorem body_spec (seIdx : Nat) : ∀ (e : Expr), inF e = true → BodySpec seId
         have w2 := wrap_of_body (body_spec seIdx rhs haF.2.1)
         have hhd' : headOf f 2 = .and_ := by simpa using hhd
         intro tail b st S rest hsc
-        obtain ⟨hs1, hz1, hd1⟩ := w1 false b st
-        obtain ⟨hs2, hz2, hd2⟩ := w2 tail (b + (compileE seIdx lhs false b st).1.length + 3)
+        obtain ⟨hs1, hz1, hx1, hd1⟩ := w1 false b st
+        obtain ⟨hs2, hz2, hx2, hd2⟩ := w2 tail (b + (compileE seIdx lhs false b st).1.length + 3)
           (andMid (compileE seIdx lhs false b st).2)
         have hms := andMid_size (compileE seIdx lhs false b st).2 st.stackSize hz1
+        have hmx : Ext (compileE seIdx lhs false b st).2 (andMid (compileE seIdx lhs false b st).2) :=
+          ⟨List.prefix_refl _, List.prefix_refl _, List.prefix_refl _⟩
         rw [compileBody_and _ _ _ _ _ _ _ hhd']
-        refine ⟨[], ?_, ?_, ?_⟩
+        refine ⟨[], ?_, ?_, (hx1.trans hmx).trans hx2, ?_⟩
         · simp only [hs2, andMid_scopes, hs1, hsc, List.nil_append]
         · simp only [hz2, hms, List.length_nil, Nat.add_zero]
-        intro fn upv h fuel ρ stk hseg hlen hag hdum
+        intro fn upv fv h fuel ρ stk hseg htab hlen hag hdum
         cases fuel with
         | zero => simp [evalCore]
         | succ n =>
-          obtain ⟨hok1, herr1⟩ := hd1 fn upv h n ρ stk hseg.left.left hlen hag hdum
+          obtain ⟨hok1, herr1⟩ := hd1 fn upv fv h n ρ stk hseg.left.left
+            (htab.of_ext (hmx.trans hx2)) hlen hag hdum
           simp only [evalCore, List.length_cons, List.length_nil, hhd']
           cases he1 : evalCore n ρ lhs with
           | error err =>
@@ -1393,7 +1838,7 @@ theorem body_spec (seIdx : Nat) : ∀ (e : Expr), inF e = true → BodySpec seId
             have hjm := hmid.tail.tail.head
             have hseg2 := hseg.right.to (q := b + (compileE seIdx lhs false b st).1.length + 3)
               (by simp only [List.length_append, List.length_cons, List.length_nil]; omega)
-            obtain ⟨hok2, herr2⟩ := hd2 fn upv h n ρ stk hseg2
+            obtain ⟨hok2, herr2⟩ := hd2 fn upv fv h n ρ stk hseg2 htab
               (by simp [hms, hlen]) (by rw [andMid_scopes, hs1]; exact hag) hdum
             by_cases hx : isFalse x = true
             · refine ⟨fun v hv => ⟨[], rfl, ?_⟩, fun he => by simp [hx] at he⟩
@@ -1429,25 +1874,31 @@ theorem body_spec (seIdx : Nat) : ∀ (e : Expr), inF e = true → BodySpec seId
         have w2 := wrap_of_body (body_spec seIdx rhs haF.2.1)
         have hhd' : headOf f 2 = .or_ := by simpa using hhd
         intro tail b st S rest hsc
-        obtain ⟨hs1, hz1, hd1⟩ := w1 false b st
-        obtain ⟨hs2, hz2, hd2⟩ := w2 tail (b + (compileE seIdx lhs false b st).1.length + 1)
+        obtain ⟨hs1, hz1, hx1, hd1⟩ := w1 false b st
+        obtain ⟨hs2, hz2, hx2, hd2⟩ := w2 tail (b + (compileE seIdx lhs false b st).1.length + 1)
           ((compileE seIdx lhs false b st).2.emit (.cJump 0))
         have hms : ((compileE seIdx lhs false b st).2.emit (.cJump 0)).stackSize = st.stackSize := by
           simp [FState.emit, adjustSize, Instr.adjust, hz1]
         have hmsc : ((compileE seIdx lhs false b st).2.emit (.cJump 0)).scopes = st.scopes := by
           simp [FState.emit, hs1]
+        have hmx := (same_emit (compileE seIdx lhs false b st).2 (.cJump 0)).ext
         rw [compileBody_or _ _ _ _ _ _ _ hhd']
         generalize hX2 : compileE seIdx rhs tail (b + (compileE seIdx lhs false b st).1.length + 1)
           ((compileE seIdx lhs false b st).2.emit (.cJump 0)) = X2 at *
-        refine ⟨[], ?_, ?_, ?_⟩
+        have hfin : Ext X2.2 { (((X2.2.emit (.jump 0)).emit (.constructVariant 1 0))) with
+            stackSize := (((X2.2.emit (.jump 0)).emit (.constructVariant 1 0))).stackSize - 1 } :=
+          ⟨List.prefix_refl _, List.prefix_refl _, List.prefix_refl _⟩
+        refine ⟨[], ?_, ?_, ((hx1.trans hmx).trans hx2).trans hfin, ?_⟩
         · simp only [FState.emit] at hmsc
           simp only [FState.emit, hs2, hmsc, hsc, List.nil_append]
         · simp [FState.emit, adjustSize, Instr.adjust, hz2, hz1]
-        intro fn upv h fuel ρ stk hseg hlen hag hdum
+        intro fn upv fv h fuel ρ stk hseg htab hlen hag hdum
+        have htab2 := htab.of_ext hfin
         cases fuel with
         | zero => simp [evalCore]
         | succ n =>
-          obtain ⟨hok1, herr1⟩ := hd1 fn upv h n ρ stk hseg.left.left.left hlen hag hdum
+          obtain ⟨hok1, herr1⟩ := hd1 fn upv fv h n ρ stk hseg.left.left.left
+            (htab2.of_ext (hmx.trans hx2)) hlen hag hdum
           simp only [evalCore, List.length_cons, List.length_nil, hhd']
           cases he1 : evalCore n ρ lhs with
           | error err =>
@@ -1462,7 +1913,7 @@ theorem body_spec (seIdx : Nat) : ∀ (e : Expr), inF e = true → BodySpec seId
             have hcv := htl.tail.head
             have hseg2 := hseg.left.right.to (q := b + (compileE seIdx lhs false b st).1.length + 1)
               (by simp only [List.length_append, List.length_cons, List.length_nil]; omega)
-            obtain ⟨hok2, herr2⟩ := hd2 fn upv h n ρ stk hseg2
+            obtain ⟨hok2, herr2⟩ := hd2 fn upv fv h n ρ stk hseg2 htab2
               (by simp [hms, hlen]) (by rw [hmsc]; exact hag) hdum
             by_cases hx : isFalse x = true
             · have e2 := Exec.step (upv := upv) (h := h) hcj
@@ -1505,16 +1956,18 @@ theorem body_spec (seIdx : Nat) : ∀ (e : Expr), inF e = true → BodySpec seId
     | .variant (some t), hF =>
       have ha := args_spec seIdx args (by simpa [inF] using hF)
       intro tail b st S rest hsc
-      obtain ⟨hs1, hz1, hd1⟩ := ha b st
-      refine ⟨[], by simp [compileBody, FState.emit, hs1, hsc], ?_, ?_⟩
+      obtain ⟨hs1, hz1, hx1, hd1⟩ := ha b st
+      refine ⟨[], by simp [compileBody, FState.emit, hs1, hsc], ?_,
+        by simpa [compileBody] using hx1.trans (same_emit _ _).ext, ?_⟩
       · simp only [compileBody, FState.emit, hz1]
         simpa using adjustSize_construct (.constructVariant t args.length) args.length st.stackSize rfl
-      · intro fn upv h fuel ρ stk hseg hlen hag hdum
-        simp only [compileBody] at hseg ⊢
+      · intro fn upv fv h fuel ρ stk hseg htab hlen hag hdum
+        simp only [compileBody] at hseg htab ⊢
         cases fuel with
         | zero => simp [evalCore]
         | succ n =>
-          obtain ⟨hok1, herr1⟩ := hd1 fn upv h n ρ stk hseg.left hlen hag hdum
+          obtain ⟨hok1, herr1⟩ := hd1 fn upv fv h n ρ stk hseg.left
+            (htab.of_ext (same_emit _ _).ext) hlen hag hdum
           simp only [evalCore]
           cases he1 : evalList n ρ args with
           | error err =>
@@ -1531,16 +1984,18 @@ theorem body_spec (seIdx : Nat) : ∀ (e : Expr), inF e = true → BodySpec seId
     | .array, hF =>
       have ha := args_spec seIdx args (by simpa [inF] using hF)
       intro tail b st S rest hsc
-      obtain ⟨hs1, hz1, hd1⟩ := ha b st
-      refine ⟨[], by simp [compileBody, FState.emit, hs1, hsc], ?_, ?_⟩
+      obtain ⟨hs1, hz1, hx1, hd1⟩ := ha b st
+      refine ⟨[], by simp [compileBody, FState.emit, hs1, hsc], ?_,
+        by simpa [compileBody] using hx1.trans (same_emit _ _).ext, ?_⟩
       · simp only [compileBody, FState.emit, hz1]
         simpa using adjustSize_construct (.constructArray args.length) args.length st.stackSize rfl
-      · intro fn upv h fuel ρ stk hseg hlen hag hdum
-        simp only [compileBody] at hseg ⊢
+      · intro fn upv fv h fuel ρ stk hseg htab hlen hag hdum
+        simp only [compileBody] at hseg htab ⊢
         cases fuel with
         | zero => simp [evalCore]
         | succ n =>
-          obtain ⟨hok1, herr1⟩ := hd1 fn upv h n ρ stk hseg.left hlen hag hdum
+          obtain ⟨hok1, herr1⟩ := hd1 fn upv fv h n ρ stk hseg.left
+            (htab.of_ext (same_emit _ _).ext) hlen hag hdum
           simp only [evalCore]
           cases he1 : evalList n ρ args with
           | error err =>
@@ -1554,13 +2009,62 @@ theorem body_spec (seIdx : Nat) : ∀ (e : Expr), inF e = true → BodySpec seId
             have := (hok1 vs he1).trans (Exec.step hseg.right.head
               (step_constructArray fn upv _ stk vs h args.length hvl))
             simpa [Nat.add_assoc] using this
+    | .record names, hF =>
+      have ha := args_spec seIdx args (by simpa [inF] using hF)
+      intro tail b st S rest hsc
+      obtain ⟨hs1, hz1, hx1, hd1⟩ := ha b st
+      obtain ⟨hget, hxr, hsr, hzr⟩ := addRecord_spec (compileArgs seIdx args b st).2 names
+      rw [compileBody_record]
+      refine ⟨[], by simp [FState.emit, hsr, hs1, hsc], ?_,
+        (hx1.trans hxr).trans (same_emit _ _).ext, ?_⟩
+      · simp only [FState.emit, hzr, hz1]
+        simpa using adjustSize_construct
+          (.constructRecord ((compileArgs seIdx args b st).2.addRecord names).1 args.length)
+          args.length st.stackSize rfl
+      · intro fn upv fv h fuel ρ stk hseg htab hlen hag hdum
+        have htab2 := htab.of_ext (same_emit _ _).ext
+        cases fuel with
+        | zero => simp [evalCore]
+        | succ n =>
+          obtain ⟨hok1, herr1⟩ := hd1 fn upv fv h n ρ stk hseg.left (htab2.of_ext hxr) hlen hag hdum
+          simp only [evalCore]
+          cases he1 : evalList n ρ args with
+          | error err =>
+            refine ⟨fun v hv => by simp at hv, fun he => ?_⟩
+            simp at he; subst he
+            exact herr1 he1
+          | ok vs =>
+            refine ⟨fun v hv => ⟨[], rfl, ?_⟩, fun he => by simp at he⟩
+            simp at hv; subst hv
+            have hvl := evalList_length n ρ args vs he1
+            have hr : fn.records[((compileArgs seIdx args b st).2.addRecord names).1]? = some names :=
+              prefix_getElem? htab2.2.2 hget
+            have := (hok1 vs he1).trans (Exec.step hseg.right.head
+              (step_constructRecord fn upv _ stk vs h _ args.length names hvl hr))
+            simpa [Nat.add_assoc] using this
     | .variant none, hF => simp [inF] at hF
-    | .record _, hF => simp [inF] at hF
   | .letRec _ _, hF => by simp [inF] at hF
   | .match_ s alts, hF => by
     simp only [inF, Bool.and_eq_true] at hF
-    exact match_spec (wrap_of_body (body_spec seIdx s hF.1)) (inAlts_patOk alts hF.2)
-      (alts_spec seIdx alts hF.2)
+    obtain ⟨⟨hsF, haF⟩, hshape⟩ := hF
+    have hws := wrap_of_body (body_spec seIdx s hsF)
+    have has := alts_spec seIdx alts haF
+    by_cases hall : alts.all (fun a => !isRec a.1) = true
+    · refine match_spec hws (inAlts_patOk alts haF) (fun a ha => ?_) has
+      have := List.all_eq_true.mp hall a ha
+      simpa using this
+    · have hone : alts.length = 1 := by
+        simp only [Bool.or_eq_true, beq_iff_eq] at hshape
+        rcases hshape with h | h
+        · exact absurd h hall
+        · exact h
+      match alts, hone, haF, has, hall with
+      | [(p, e)], _, haF, has, hall =>
+        have hr : isRec p = true := by
+          cases hp : isRec p with
+          | true => rfl
+          | false => simp [hp] at hall
+        exact match_spec_record hws (inAlts_patOk _ haF (p, e) (by simp)) hr has
 theorem alts_spec (seIdx : Nat) : ∀ (alts : List (Pat × Expr)), inAlts alts = true →
     AltsSpec seIdx alts
   | [], _ => alts_nil seIdx
@@ -1573,5 +2077,197 @@ theorem args_spec (seIdx : Nat) : ∀ (es : List Expr), inFs es = true → ArgsS
     simp only [inFs, Bool.and_eq_true] at hF
     exact args_cons (wrap_of_body (body_spec seIdx e hF.1)) (args_spec seIdx es hF.2)
 end
+
+/-! ### From the frame-local machine to the whole machine -/
+
+theorem step_of_local {s : State} {fr : Frame} {rest : List Frame} {fn : Fn} {upv : List Val}
+    {pc' : Nat} {loc' : List Val} {h' : Heap}
+    (hf : s.frames = fr :: rest) (hc : s.heap.clos[fr.clos]? = some (fn, upv))
+    (hs : stepLocal fn upv fr.pc (s.stack.drop fr.offset) s.heap = .next pc' loc' h') :
+    step s = .running { stack := s.stack.take fr.offset ++ loc',
+                        frames := { fr with pc := pc' } :: rest, heap := h' } := by
+  simp [step, hf, hc, hs]
+
+theorem step_of_local_err {s : State} {fr : Frame} {rest : List Frame} {fn : Fn} {upv : List Val}
+    {e : Err}
+    (hf : s.frames = fr :: rest) (hc : s.heap.clos[fr.clos]? = some (fn, upv))
+    (hs : stepLocal fn upv fr.pc (s.stack.drop fr.offset) s.heap = .err e) :
+    step s = .err e := by
+  simp [step, hf, hc, hs]
+
+/-- A run of the frame-local machine is a run of the whole machine, in any frame of a closure
+    of that function, whatever lies below the frame on the value stack and in the frame list. -/
+theorem run_of_exec {fn : Fn} {upv : List Val} {h : Heap} {pc : Nat} {stk : List Val} {pc' : Nat}
+    {stk' : List Val} (a : Exec fn upv h pc stk pc' stk') :
+    ∀ (below : List Val) (fr : Frame) (rest : List Frame), fr.offset = below.length →
+      h.clos[fr.clos]? = some (fn, upv) →
+      ∃ n, ∀ m,
+        run (n + m) { stack := below ++ stk, frames := { fr with pc := pc } :: rest, heap := h } =
+        run m { stack := below ++ stk', frames := { fr with pc := pc' } :: rest, heap := h } := by
+  induction a with
+  | refl => intro below fr rest _ _; exact ⟨0, by simp⟩
+  | @cons pc stk pc₁ stk₁ pc₂ stk₂ hs _ ih =>
+    intro below fr rest ho hc
+    obtain ⟨n, hn⟩ := ih below fr rest ho hc
+    refine ⟨n + 1, fun m => ?_⟩
+    have hstep := step_of_local (s := ⟨below ++ stk, { fr with pc := pc } :: rest, h⟩)
+      (fr := { fr with pc := pc }) (rest := rest) rfl hc (by simpa [ho] using hs)
+    rw [Nat.add_right_comm]
+    simp only [run, hstep]
+    simpa [ho] using hn m
+
+theorem run_of_execErr {fn : Fn} {upv : List Val} {h : Heap} {pc : Nat} {stk : List Val} {e : Err}
+    (a : ExecErr fn upv h pc stk e) (below : List Val) (fr : Frame) (rest : List Frame)
+    (ho : fr.offset = below.length) (hc : h.clos[fr.clos]? = some (fn, upv)) :
+    ∃ n, ∀ m,
+      run (n + m) { stack := below ++ stk, frames := { fr with pc := pc } :: rest, heap := h } =
+        .error e := by
+  obtain ⟨pc', stk', hex, herr⟩ := a
+  obtain ⟨n, hn⟩ := run_of_exec hex below fr rest ho hc
+  refine ⟨n + 1, fun m => ?_⟩
+  rw [Nat.add_assoc, hn, Nat.add_comm]
+  have hstep := step_of_local_err (s := ⟨below ++ stk', { fr with pc := pc' } :: rest, h⟩)
+    (fr := { fr with pc := pc' }) (rest := rest) rfl hc (by simpa [ho] using herr)
+  simp only [run, hstep]
+
+/-- A module whose code runs to its `Return` with `[v]` on the frame: `runModule` answers `v`. -/
+theorem runModule_of_exec {main : Fn} {globals : List Val} {pcR : Nat} {v : Val}
+    (a : Exec main globals { clos := [(main, globals)], data := [] } 0 [] pcR [v])
+    (hret : main.instrs[pcR]? = some .ret) :
+    ∃ n, ∀ m, runModule (n + m) main globals = .ok (v, { clos := [(main, globals)], data := [] }) := by
+  obtain ⟨n, hn⟩ := run_of_exec a [.cref 0] { offset := 1, excess := false, clos := 0, pc := 0 } []
+    rfl rfl
+  refine ⟨n + 2, fun m => ?_⟩
+  have h1 : runModule (n + 2 + m) main globals =
+      run (2 + m) { stack := [.cref 0] ++ [v],
+                    frames := [{ offset := 1, excess := false, clos := 0, pc := pcR }],
+                    heap := { clos := [(main, globals)], data := [] } } := by
+    rw [Nat.add_assoc]
+    exact hn (2 + m)
+  rw [h1, show 2 + m = (m + 1) + 1 by omega]
+  simp [run, step, stepLocal, hret, stepInstr, popN]
+
+theorem runModule_of_execErr {main : Fn} {globals : List Val} {e : Err}
+    (a : ExecErr main globals { clos := [(main, globals)], data := [] } 0 [] e) :
+    ∃ n, ∀ m, runModule (n + m) main globals = .error e :=
+  run_of_execErr a [.cref 0] { offset := 1, excess := false, clos := 0, pc := 0 } [] rfl rfl
+
+/-- **Call / Return with frames, exact arity** (thread.rs `Call` :2183, `do_call` :2752,
+    `call_function_with_upvars` `Ordering::Equal` :2711, `Return` :2527): when the callee's code,
+    started at 0 on its arguments, runs to a `Return` with `args ++ [v]`, a `Call n` in the
+    caller replaces function and arguments by `v`, leaves everything below untouched (the
+    caller's locals, the rest of the value stack, the other frames, the heap) and the caller
+    resumes at the next instruction. -/
+theorem call_return_exact {fn g : Fn} {upv gupv : List Val} {h : Heap} {pc pcR id n : Nat}
+    {below stk args : List Val} {v : Val} {fr : Frame} {rest : List Frame}
+    (ho : fr.offset = below.length) (hpc : fr.pc = pc)
+    (hc : h.clos[fr.clos]? = some (fn, upv)) (hi : fn.instrs[pc]? = some (.call n))
+    (hg : h.clos[id]? = some (g, gupv)) (hn : g.args = n) (hargs : args.length = n)
+    (hbody : Exec g gupv h 0 args pcR (args ++ [v])) (hret : g.instrs[pcR]? = some .ret) :
+    ∃ k, ∀ m,
+      run (k + m) { stack := below ++ (stk ++ [Val.cref id] ++ args), frames := fr :: rest, heap := h } =
+      run m { stack := below ++ (stk ++ [v]), frames := { fr with pc := pc + 1 } :: rest, heap := h } := by
+  -- the callee's frame
+  obtain ⟨k, hk⟩ := run_of_exec hbody (below ++ stk ++ [Val.cref id])
+    { offset := (below ++ stk ++ [Val.cref id]).length, excess := false, clos := id, pc := 0 }
+    ({ fr with pc := pc + 1 } :: rest) rfl hg
+  refine ⟨k + 2, fun m => ?_⟩
+  -- the `Call`
+  have hidx : (below ++ (stk ++ [Val.cref id] ++ args))[(below ++ (stk ++ [Val.cref id] ++ args)).length - 1 - n]?
+      = some (Val.cref id) := by
+    have : (below ++ (stk ++ [Val.cref id] ++ args)).length - 1 - n = (below ++ stk).length := by
+      simp [hargs]; omega
+    have e1 : below ++ (stk ++ [Val.cref id] ++ args) = (below ++ stk) ++ (Val.cref id :: args) := by
+      simp
+    rw [this, e1, List.getElem?_append_right (Nat.le_refl _)]
+    simp
+  have hstep1 : step { stack := below ++ (stk ++ [Val.cref id] ++ args), frames := fr :: rest, heap := h } =
+      .running ⟨below ++ stk ++ [Val.cref id] ++ args,
+                 (⟨(below ++ stk ++ [Val.cref id]).length, false, id, 0⟩ : Frame) ::
+                   ({ fr with pc := pc + 1 } : Frame) :: rest, h⟩ := by
+    subst hpc
+    have hlen : ¬ ((below ++ (stk ++ [Val.cref id] ++ args)).length < n + 1) := by simp [hargs]; omega
+    simp only [step, hc, stepLocal, hi, stepInstr, doCall, hlen, if_false, hidx, calleeOf, hg,
+      Option.map_some, callWith, Callee.args, hn, Nat.lt_irrefl, if_true]
+    simp [hargs, ← List.append_assoc]
+  -- the `Return`
+  have hstep3 : step ⟨below ++ stk ++ [Val.cref id] ++ (args ++ [v]),
+                 (⟨(below ++ stk ++ [Val.cref id]).length, false, id, pcR⟩ : Frame) ::
+                   ({ fr with pc := pc + 1 } : Frame) :: rest, h⟩ =
+      .running { stack := below ++ (stk ++ [v]), frames := { fr with pc := pc + 1 } :: rest, heap := h } := by
+    have hd : List.drop (below ++ stk ++ [Val.cref id]).length (below ++ stk ++ [Val.cref id] ++ (args ++ [v]))
+        = args ++ [v] := by simp
+    have hp : popN (below ++ stk ++ [Val.cref id] ++ (args ++ [v])) ((args ++ [v]).length + 1) = below ++ stk := by
+      have : below ++ stk ++ [Val.cref id] ++ (args ++ [v]) = (below ++ stk) ++ ([Val.cref id] ++ (args ++ [v])) := by
+        simp
+      rw [this]
+      exact popN_append _ _ _ (by simp)
+    have hst : below ++ stk ++ [Val.cref id] ++ (args ++ [v]) =
+        (below ++ stk ++ [Val.cref id] ++ args) ++ [v] := by simp
+    have hgl : (below ++ stk ++ [Val.cref id] ++ (args ++ [v])).getLast? = some v := by
+      rw [hst]; exact getLast?_snoc _ v
+    have hlen : ¬ ((below ++ stk ++ [Val.cref id] ++ (args ++ [v])).length < (args ++ [v]).length + 1) := by
+      simp; omega
+    have htk : List.take (below ++ stk ++ [Val.cref id]).length (below ++ stk ++ [Val.cref id] ++ (args ++ [v]))
+        = below ++ stk ++ [Val.cref id] := List.take_left' rfl
+    simp only [step, hg, stepLocal, hd, hret, stepInstr, hlen, if_false, hgl, hp]
+    simp
+  have r1 : ∀ j, run (j + 1) ⟨below ++ (stk ++ [Val.cref id] ++ args), fr :: rest, h⟩ =
+      run j ⟨below ++ stk ++ [Val.cref id] ++ args,
+        (⟨(below ++ stk ++ [Val.cref id]).length, false, id, 0⟩ : Frame) ::
+          ({ fr with pc := pc + 1 } : Frame) :: rest, h⟩ := fun j => by
+    simp only [run, hstep1]
+  have r3 : ∀ j, run (j + 1) ⟨below ++ stk ++ [Val.cref id] ++ (args ++ [v]),
+        (⟨(below ++ stk ++ [Val.cref id]).length, false, id, pcR⟩ : Frame) ::
+          ({ fr with pc := pc + 1 } : Frame) :: rest, h⟩ =
+      run j ⟨below ++ (stk ++ [v]), ({ fr with pc := pc + 1 } : Frame) :: rest, h⟩ := fun j => by
+    simp only [run, hstep3]
+  calc run (k + 2 + m) ⟨below ++ (stk ++ [Val.cref id] ++ args), fr :: rest, h⟩
+      = run (k + (m + 1) + 1) ⟨below ++ (stk ++ [Val.cref id] ++ args), fr :: rest, h⟩ := by
+        rw [show k + 2 + m = k + (m + 1) + 1 by omega]
+    _ = _ := r1 _
+    _ = _ := hk (m + 1)
+    _ = _ := r3 m
+
+/-- The function `compile_lambda` builds for a closure `\params -> body` with `body` in the
+    fragment, started at 0 on its arguments, reaches its `Return` with the value `evalCore`
+    gives to the body under `params ↦ args` (the closure's own environment living in the
+    upvalues). -/
+theorem lambda_body_exec (seIdx : Nat) (params : List Sym) (body : Expr) (hF : inF body = true)
+    (hnd : params.contains dummySym = false) (gupv : List Val) (h : Heap) (fuel : Nat) (ρc : Env)
+    (args : List Val) (v : Val) (hlen : params.length = args.length)
+    (hdum : lookup ρc dummySym = none)
+    (hup : ∀ x w, lookup ρc x = some w →
+      ∃ k, indexOfSym (compileE seIdx body true 0 (innerStart params)).2.freeVars x = some k ∧
+        gupv[k]? = some w)
+    (hev : evalCore fuel (bindAll params args ρc) body = .ok v) :
+    ∃ pcR, Exec (mkFn params.length (compileE seIdx body true 0 (innerStart params)).1
+          (compileE seIdx body true 0 (innerStart params)).2) gupv h 0 args pcR (args ++ [v]) ∧
+      (mkFn params.length (compileE seIdx body true 0 (innerStart params)).1
+          (compileE seIdx body true 0 (innerStart params)).2).instrs[pcR]? = some .ret := by
+  obtain ⟨hsc, hsz⟩ := pushVars_scopes params { FState.empty with scopes := [[]] } [] [] rfl
+  have hsc' : (innerStart params).scopes = (varsOf 0 params ++ []) :: [] := hsc
+  have hsz' : (innerStart params).stackSize = params.length := by
+    have : (innerStart params).stackSize = 0 + params.length := hsz
+    simpa using this
+  obtain ⟨_, _, _, hd⟩ := wrap_of_body (body_spec seIdx body hF) true 0 (innerStart params)
+  have hbase : Agree (compileE seIdx body true 0 (innerStart params)).2.freeVars gupv ([] :: []) ρc [] := by
+    intro x w hx
+    exact Or.inr ⟨rfl, hup x w hx⟩
+  have hag := varsOf_agree _ gupv params args [] ρc [] [] hlen hbase
+  obtain ⟨hok, _⟩ := hd (mkFn params.length (compileE seIdx body true 0 (innerStart params)).1
+      (compileE seIdx body true 0 (innerStart params)).2) gupv
+    (compileE seIdx body true 0 (innerStart params)).2.freeVars h fuel (bindAll params args ρc) args
+    (by
+      intro k hk
+      show ((compileE seIdx body true 0 (innerStart params)).1 ++ [Instr.ret])[0 + k]? = _
+      rw [Nat.zero_add, List.getElem?_append_left hk])
+    ⟨List.prefix_refl _, List.prefix_refl _, List.prefix_refl _⟩
+    (by rw [hsz', hlen])
+    (by rw [hsc']; simpa using hag)
+    (bindAll_dummy params args ρc hnd hdum)
+  refine ⟨(compileE seIdx body true 0 (innerStart params)).1.length, by simpa using hok v hev, ?_⟩
+  show ((compileE seIdx body true 0 (innerStart params)).1 ++ [Instr.ret])[_]? = _
+  simp
 
 end GluonModel.Proofs.Compile
